@@ -35,10 +35,13 @@ func vpLockScript(mirrorOnly bool) {
 	for i := 0; i < steps; i++ {
 		entry := vpChoose("entry", 2)
 		dm := vpDMap(cl.members[entry], "l")
+		if i > 0 {
+			vpSleepMs(vpRange("wait", 0, 70))
+		}
 		now := vpNowMs()
 		reg.vpClear(now)
 		held := reg.visible(now)
-		switch vpChoose("op", 5) {
+		switch vpChoose("op", 3) {
 		case 0: // Lock
 			timeout := time.Duration(0)
 			var deadline int64
@@ -95,8 +98,6 @@ func vpLockScript(mirrorOnly bool) {
 					chk(errors.Is(err, ErrNoSuchLock), "wrong-token-lease-fails")
 				}
 			}
-		case 3, 4:
-			vpSleepMs(vpRange("sleep", 1, 70))
 		}
 		if replicas == 2 && mirrorOnly {
 			vpCheckMirror(cl, "l", "k")
